@@ -3,8 +3,11 @@ package c13
 
 import (
 	"fmt"
+	"html"
+	"strconv"
 	"strings"
 
+	"verifharness/internal/astser"
 	"verifharness/internal/core"
 	"verifharness/internal/drv"
 	"verifharness/internal/probe"
@@ -16,18 +19,64 @@ func init() { core.Register("C13", Run) }
 
 // item of a call tree
 type item struct {
-	kind   string // text | call | children
+	kind   string // text | call | children | for | if | elem | str | gostr
 	text   string
-	callee string // template name or hand-written expression
-	block  []*item
+	callee string // template name or hand-written expression (str/gostr: the component handed to rs(ctx, .))
+	block  []*item // call: the block; for: the body; if: the then branch; elem: the element's children
+	els    []*item // if: the else branch
+	cond   string  // if: "!b0" (true) or "b0" (false), see the argument tuple in Run
 	hasBlk bool
+	legacy bool   // call without a block written {! x } instead of @x
+	goVar  string // gostr: {{ v := rs(ctx, x) }} { v }
+}
+
+// forms: which call-site syntaxes the body of one template (including the blocks it passes) may use.
+//   at     @x / @x { block }
+//   legacy {! x }                          the deprecated call expression (parser.CallTemplateExpression)
+//   str    { rs(ctx, x) }                  a string-expression helper that renders x with the body's ctx
+//   gov    {{ v := rs(ctx, x) }} { v }     the same from raw Go code
+type forms struct{ at, legacy, str, gov bool }
+
+func (f forms) String() string {
+	switch {
+	case f.at && f.legacy && f.str && f.gov:
+		return "all four"
+	case f.at && !f.legacy && !f.str && !f.gov:
+		return "@ only"
+	case f.at:
+		return "@ and some other"
+	}
+	var p []string
+	if f.legacy {
+		p = append(p, "{! }")
+	}
+	if f.str {
+		p = append(p, "{ rs(ctx, ) }")
+	}
+	if f.gov {
+		p = append(p, "{{ rs(ctx, ) }}")
+	}
+	return "no @: " + strings.Join(p, " + ")
 }
 
 type tdef struct {
 	name    string
 	body    []*item
 	hasSlot bool
+	forms   forms
 }
+
+// c13Helpers is appended to tgen.Helpers (same package, imports already present).
+const c13Helpers = `
+// rs renders c with the given context and returns the markup as a string (a string-expression helper).
+func rs(ctx context.Context, c templ.Component) string {
+	var b bytes.Buffer
+	if err := c.Render(ctx, &b); err != nil {
+		return "!" + err.Error()
+	}
+	return b.String()
+}
+`
 
 var hand = []string{"wrap()", "ignore()", `templ.Raw("<r>")`, "onceA.Once()", "onceB.Once()", "templ.Flush()", "templ.Flush()", "capt()", "hflush()", "hflush()"}
 
@@ -35,16 +84,48 @@ type gen struct {
 	r      *rng.R
 	marker int
 	prefix string
-	mids   []string // names of earlier Mid templates (callable)
+	mids   []string // names of earlier Leg and Mid templates (callable)
+	forms  forms    // syntaxes of the template being generated
+	small  bool     // the first files of a run: shallow trees, so that the first failing input is short
+}
+
+func (g *gen) pickForms() forms {
+	switch k := g.r.Intn(10); {
+	case k < 3:
+		return forms{true, true, true, true}
+	case k == 3:
+		return forms{at: true}
+	case k == 4:
+		return forms{at: true, legacy: g.r.Bool(), str: g.r.Bool(), gov: g.r.Bool()}
+	}
+	for {
+		f := forms{legacy: g.r.Intn(3) != 0, str: g.r.Intn(3) == 0, gov: g.r.Intn(3) == 0}
+		if f.legacy || f.str || f.gov {
+			return f
+		}
+	}
+}
+
+// components a rendering helper is handed (generated slot users, a generated slot ignorer, the hand-written wrapper)
+func (g *gen) rsCallees() []string {
+	return []string{g.prefix + "Card", g.prefix + "Twice", g.prefix + "Card", g.prefix + "Ign", "wrap()"}
 }
 
 func (g *gen) mark() string { g.marker++; return fmt.Sprintf("m%d", g.marker) }
 
 func (g *gen) items(depth int, inSlotTemplate bool) []*item {
 	n := 1 + g.r.Intn(3)
+	// one list in three is call-heavy: no plain texts, 2-4 items, so that calls (and loops of calls) sit next to each other
+	heavy := depth > 0 && g.r.Intn(3) == 0
+	if heavy {
+		n = 2 + g.r.Intn(3)
+	}
 	var res []*item
 	for i := 0; i < n; i++ {
 		k := g.r.Intn(10)
+		if heavy && k < 2 {
+			k = 3 + g.r.Intn(7)
+		}
 		switch {
 		case k < 2 || depth == 0:
 			res = append(res, &item{kind: "text", text: g.mark()})
@@ -53,7 +134,45 @@ func (g *gen) items(depth int, inSlotTemplate bool) []*item {
 		case k == 3 && depth > 0:
 			// a loop (two iterations): what the last call of one iteration leaves behind must not reach the next iteration
 			res = append(res, &item{kind: "for", block: g.items(depth-1, inSlotTemplate)})
+		case k == 4 && depth > 0 && g.r.Intn(2) == 0:
+			// a conditional / an element around the items (call sites nested inside composite nodes)
+			if g.r.Bool() {
+				it := &item{kind: "if", cond: "!b0", block: g.items(depth-1, inSlotTemplate)}
+				if g.r.Bool() {
+					it.cond, it.els = "b0", it.block
+					it.block = []*item{{kind: "text", text: g.mark()}}
+				}
+				res = append(res, it)
+			} else {
+				res = append(res, &item{kind: "elem", block: g.items(depth-1, inSlotTemplate)})
+			}
 		default:
+			// with a block (needs @) two times out of three; otherwise one of the syntaxes the template may use
+			var fs []string
+			if g.forms.at {
+				fs = append(fs, "at", "at")
+			}
+			if g.forms.legacy {
+				fs = append(fs, "legacy", "legacy")
+			}
+			if g.forms.str {
+				fs = append(fs, "str")
+			}
+			if g.forms.gov {
+				fs = append(fs, "gostr")
+			}
+			if g.forms.at && g.r.Intn(3) != 0 {
+				fs = []string{"block"}
+			}
+			form := rng.Pick(g.r, fs)
+			if form == "str" || form == "gostr" {
+				it := &item{kind: form, callee: rng.Pick(g.r, g.rsCallees())}
+				if form == "gostr" {
+					it.goVar = "v" + g.mark()
+				}
+				res = append(res, it)
+				continue
+			}
 			callees := []string{g.prefix + "Card", g.prefix + "Twice", g.prefix + "Ign", g.prefix + "Card"}
 			callees = append(callees, g.mids...)
 			callees = append(callees, hand...)
@@ -63,8 +182,8 @@ func (g *gen) items(depth int, inSlotTemplate bool) []*item {
 				"templ.Join(onceA.Once(), onceB.Once())", "templ.Join(ignore(), onceA.Once(), templ.Flush())",
 				// a callee EXPRESSION that renders a slot-bearing component while it is evaluated
 				"eager(ctx, "+g.prefix+"Card"+tgen.CallArgs+")", "eager(ctx, "+g.prefix+"Twice"+tgen.CallArgs+")")
-			c := &item{kind: "call", callee: rng.Pick(g.r, callees)}
-			if g.r.Intn(3) != 0 {
+			c := &item{kind: "call", callee: rng.Pick(g.r, callees), legacy: form == "legacy"}
+			if form == "block" {
 				c.hasBlk = true
 				c.block = g.items(depth-1, inSlotTemplate)
 			}
@@ -75,6 +194,14 @@ func (g *gen) items(depth int, inSlotTemplate bool) []*item {
 }
 
 func isHand(c string) bool { return !(c[0] >= 'A' && c[0] <= 'Z') }
+
+// rsExpr: the helper call that renders component c with the body's ctx.
+func rsExpr(c string) string {
+	if !isHand(c) {
+		c += tgen.CallArgs
+	}
+	return "rs(ctx, " + c + ")"
+}
 
 func (it *item) print(sb *strings.Builder, lvl int) {
 	ind := strings.Repeat("\t", lvl)
@@ -89,12 +216,36 @@ func (it *item) print(sb *strings.Builder, lvl int) {
 			b.print(sb, lvl+1)
 		}
 		sb.WriteString(ind + "}\n")
+	case "if":
+		sb.WriteString(ind + "if " + it.cond + " {\n")
+		for _, b := range it.block {
+			b.print(sb, lvl+1)
+		}
+		if it.els != nil {
+			sb.WriteString(ind + "} else {\n")
+			for _, b := range it.els {
+				b.print(sb, lvl+1)
+			}
+		}
+		sb.WriteString(ind + "}\n")
+	case "elem":
+		sb.WriteString(ind + "<div>\n")
+		for _, b := range it.block {
+			b.print(sb, lvl+1)
+		}
+		sb.WriteString(ind + "</div>\n")
+	case "str":
+		sb.WriteString(ind + "{ " + rsExpr(it.callee) + " }\n")
+	case "gostr":
+		sb.WriteString(ind + "{{ " + it.goVar + " := " + rsExpr(it.callee) + " }}\n" + ind + "{ " + it.goVar + " }\n")
 	case "call":
 		call := it.callee
 		if !isHand(call) {
 			call += tgen.CallArgs
 		}
-		if it.hasBlk {
+		if it.legacy {
+			sb.WriteString(ind + "{! " + call + " }\n")
+		} else if it.hasBlk {
 			sb.WriteString(ind + "@" + call + " {\n")
 			for _, b := range it.block {
 				b.print(sb, lvl+1)
@@ -114,18 +265,36 @@ func (g *gen) file() (string, []tdef) {
 	fixed := func(name, body string) {
 		sb.WriteString("templ " + g.prefix + name + tgen.Sig + " {\n" + body + "}\n\n")
 	}
+	sh := 0
+	if g.small {
+		sh = 1
+	}
 	fixed("Card", "\t<section>{ children... }</section>\n")
 	fixed("Twice", "\t<t>{ children... }|{ children... }</t>\n")
 	fixed("Ign", "\t<g></g>\n")
+	// Leg: callees that never place their children; most of them reach other components only through the
+	// legacy call expression / rendering helpers (no @ anywhere in the body)
 	for i := 0; i < 2; i++ {
-		d := tdef{name: fmt.Sprintf("%sMid%d", g.prefix, i), hasSlot: true}
-		d.body = g.items(2, true)
+		d := tdef{name: fmt.Sprintf("%sLeg%d", g.prefix, i), forms: g.pickForms()}
+		g.forms = d.forms
+		d.body = g.items(2-sh, false)
+		defs = append(defs, d)
+		g.mids = append(g.mids, d.name, d.name)
+	}
+	for i := 0; i < 2; i++ {
+		d := tdef{name: fmt.Sprintf("%sMid%d", g.prefix, i), hasSlot: true, forms: g.pickForms()}
+		g.forms = d.forms
+		d.body = g.items(2-sh, true)
 		defs = append(defs, d)
 		g.mids = append(g.mids, d.name)
 	}
 	for i := 0; i < 3; i++ {
-		d := tdef{name: fmt.Sprintf("%sE%d", g.prefix, i)}
-		d.body = g.items(3, false)
+		d := tdef{name: fmt.Sprintf("%sE%d", g.prefix, i), forms: forms{true, true, true, true}}
+		if g.r.Intn(3) == 0 {
+			d.forms = g.pickForms()
+		}
+		g.forms = d.forms
+		d.body = g.items(3-sh, false)
 		defs = append(defs, d)
 	}
 	for _, d := range defs {
@@ -157,6 +326,17 @@ func (o *oracle) items(its []*item, kids func() string) string {
 			parts = append(parts, "X:"+kids())
 		case "for":
 			parts = append(parts, "X:"+o.items(it.block, kids)+o.items(it.block, kids))
+		case "if":
+			if it.cond == "!b0" { // b0 is false in every case of this check
+				parts = append(parts, "X:"+o.items(it.block, kids))
+			} else {
+				parts = append(parts, "X:"+o.items(it.els, kids))
+			}
+		case "elem":
+			parts = append(parts, "X:<div>"+o.items(it.block, kids)+"</div>")
+		case "str", "gostr":
+			// a component rendered by a helper from inside a body is called without a block: no children; the string is escaped
+			parts = append(parts, "X:"+html.EscapeString(o.call(it.callee, func() string { return "" })))
 		case "call":
 			slot := func() string { return "" }
 			if it.hasBlk {
@@ -227,18 +407,105 @@ func (o *oracle) call(callee string, slot func() string) string {
 	return o.items(d.body, slot)
 }
 
+// walk visits every item of a tree (blocks, bodies, both branches).
+func walk(its []*item, f func(*item)) {
+	for _, it := range its {
+		f(it)
+		walk(it.block, f)
+		walk(it.els, f)
+	}
+}
+
+// envWith adds entries to the environment list probe.Env produced (wire: l<count>:<items>).
+func envWith(env string, extra []string) string {
+	i := strings.Index(env, ":")
+	n, err := strconv.Atoi(env[1:i])
+	if err != nil || env[0] != 'l' {
+		panic("c13: unexpected environment wire " + trunc(env, 20))
+	}
+	return "l" + strconv.Itoa(n+len(extra)) + ":" + env[i+1:] + strings.Join(extra, "")
+}
+
+func strEntry(k, v string) string {
+	return astser.List(astser.Atom(k), astser.List(astser.Atom("str"), astser.Atom(v)))
+}
+
+// helperEnv: the values the model's expression oracle gives to the rendering-helper expressions of one file.  The body's
+// ctx holds no children wherever an expression is evaluated (C13_slot_empty_between_statements), so rs(ctx, x) is x
+// rendered without children; the comparison with the compiled code checks exactly that.
+func helperEnv(g *gen, defs []tdef) []string {
+	o := &oracle{pre: g.prefix, onces: map[string]bool{}}
+	none := func() string { return "" }
+	var out []string
+	seen := map[string]bool{}
+	for _, x := range g.rsCallees() {
+		if !seen[x] {
+			seen[x] = true
+			out = append(out, strEntry(rsExpr(x), o.call(x, none)))
+		}
+	}
+	for _, d := range defs {
+		walk(d.body, func(it *item) {
+			if it.kind == "gostr" {
+				out = append(out, strEntry(it.goVar, o.call(it.callee, none)))
+			}
+		})
+	}
+	return out
+}
+
+// stats of one template for the evidence histogram
+type tstat struct {
+	legacy, str, gov, at, blocks int
+	nestedOnly                  bool // every component use sits inside a for / if / element / block (none at top level)
+	blockToNoAt                 int  // calls WITH a block whose callee is a generated template without @ and without slot
+}
+
+func statsOf(d tdef, dm map[string]tdef) tstat {
+	var s tstat
+	top := 0
+	for _, it := range d.body {
+		if it.kind == "call" || it.kind == "str" || it.kind == "gostr" {
+			top++
+		}
+	}
+	walk(d.body, func(it *item) {
+		switch it.kind {
+		case "str":
+			s.str++
+		case "gostr":
+			s.gov++
+		case "call":
+			switch {
+			case it.legacy:
+				s.legacy++
+			case it.hasBlk:
+				s.blocks++
+				if cd, ok := dm[it.callee]; ok && !cd.forms.at && !cd.hasSlot {
+					s.blockToNoAt++
+				}
+			default:
+				s.at++
+			}
+		}
+	})
+	s.nestedOnly = top == 0 && s.legacy+s.str+s.gov+s.at+s.blocks > 0
+	return s
+}
+
 func Run(c *core.Ctx) {
-	c.Rule = "programs: random component call trees (depth <= 4) over generated callees that use (Card), repeat (Twice) or ignore (Ign) their slot, intermediate templates that pass their own children on inside a nested block (Mid), two-iteration for loops around calls, and hand-written callees (wrap, capt - which renders its children into a plain non-flushable bytes.Buffer -, hflush - which renders templ.Flush() with its children into a plain writer -, flushWith(c) - which hands a component to templ.Flush() as children -, templ.Join of once handles / Flush, eager(ctx, c) - whose call expression renders a slot-bearing component while it is evaluated -, ignore, templ.Raw, two once handles, templ.Flush), with and without blocks, siblings after unconsumed blocks; each block carries unique marker texts; distinct non-trivial = distinct entry templates rendered"
+	c.Rule = "programs: random component call trees (depth <= 4) over generated callees that use (Card), repeat (Twice) or ignore (Ign) their slot, callees that never place their children and whose bodies are themselves random trees (Leg), intermediate templates that pass their own children on inside a nested block (Mid), two-iteration for loops, if/else and elements around calls, and hand-written callees (wrap, capt - which renders its children into a plain non-flushable bytes.Buffer -, hflush - which renders templ.Flush() with its children into a plain writer -, flushWith(c) - which hands a component to templ.Flush() as children -, templ.Join of once handles / Flush, eager(ctx, c) - whose call expression renders a slot-bearing component while it is evaluated -, ignore, templ.Raw, two once handles, templ.Flush), with and without blocks, siblings after unconsumed blocks; every call site without a block is written in one of four syntaxes - @x, the legacy call expression {! x }, a string-expression helper { rs(ctx, x) } that renders x with the body's ctx, the same helper called from raw Go code {{ v := rs(ctx, x) }} { v } - and every template draws the set of syntaxes its body may use (all four / @ only / @ and some / no @ at all: only legacy calls and helpers, so no blocks either); each block carries unique marker texts; distinct non-trivial = distinct templates rendered as entry"
 	c.Proofs()
-	nFiles := c.N(60, 800)
+	nFiles := c.N(100, 1000)
 	per := 120
 	renderOK, oracleOK := true, true
 	for start := 0; start < nFiles; start += per {
 		var files []probe.File
 		var alldefs [][]tdef
 		var prefixes []string
+		var extras [][]string
 		for i := start; i < start+per && i < nFiles; i++ {
-			g := &gen{r: c.Rng.Fork(), prefix: fmt.Sprintf("G%04d", i)}
+			g := &gen{r: c.Rng.Fork(), prefix: fmt.Sprintf("G%04d", i), small: i < nFiles/5}
 			src, defs := g.file()
 			f, err := probe.Prepare(g.prefix, src)
 			if err != nil {
@@ -248,8 +515,9 @@ func Run(c *core.Ctx) {
 			files = append(files, f)
 			alldefs = append(alldefs, defs)
 			prefixes = append(prefixes, g.prefix)
+			extras = append(extras, helperEnv(g, defs))
 		}
-		prog, err := probe.Build(files, tgen.Helpers)
+		prog, err := probe.Build(files, tgen.Helpers+c13Helpers)
 		if err != nil {
 			c.Oblige("correspondence", "generated call-tree code compiles", false, trunc(prog.BuildLog, 1500))
 			prog.Close()
@@ -274,7 +542,7 @@ func Run(c *core.Ctx) {
 		reqs := make([]drv.Req, len(pc))
 		for i, k := range pc {
 			f := files[owner[i]]
-			reqs[i] = drv.Req{Fn: "denote", Args: [][]byte{[]byte(f.Enc), []byte(k.Template), []byte(probe.Env(f, k.Args))}}
+			reqs[i] = drv.Req{Fn: "denote", Args: [][]byte{[]byte(f.Enc), []byte(k.Template), []byte(envWith(probe.Env(f, k.Args), extras[owner[i]]))}}
 		}
 		mres := c.Model(reqs)
 		for i := range pc {
@@ -313,6 +581,27 @@ func Run(c *core.Ctx) {
 			}
 			if strings.Contains(res[i], "<section></section>") {
 				c.Hist("entry renders a block-less Card")
+			}
+			d := dm[names[i]]
+			ts := statsOf(d, dm)
+			c.Hist("template syntaxes: " + d.forms.String())
+			if ts.legacy > 0 {
+				c.Hist("entry has {! x } call sites")
+			}
+			if ts.str > 0 {
+				c.Hist("entry has { rs(ctx, x) } sites")
+			}
+			if ts.gov > 0 {
+				c.Hist("entry has {{ v := rs(ctx, x) }} sites")
+			}
+			if ts.nestedOnly {
+				c.Hist("entry uses components only inside for/if/element/block")
+			}
+			if ts.blockToNoAt > 0 {
+				c.Hist("entry passes a block to a slot-less template without @ in its body")
+			}
+			if !d.forms.at && !d.hasSlot && ts.legacy+ts.str+ts.gov > 0 {
+				c.Hist("slot-less template whose component uses are all non-@")
 			}
 			if strings.Contains(files[fi].Src, "Once() {") {
 				c.Hist("file has a once block")
